@@ -11,6 +11,7 @@ import (
 	"crypto/ed25519"
 	"crypto/sha256"
 	"encoding/hex"
+	"errors"
 	"fmt"
 	"math/rand"
 	"os"
@@ -100,6 +101,50 @@ func (f *c14Failures) report(t *testing.T) {
 				t.Errorf("  %s", m)
 			}
 		})
+	}
+}
+
+// c14Info collects informational observations: things stricter than the property as stated (or outside it). They are
+// logged with a counter ("INFO <test> <name>: N cases, first: ...") and never fail a test.
+type c14Info struct {
+	prefix string
+	names  []string
+	count  map[string]int
+	first  map[string]string
+}
+
+func newC14Info(prefix string, names ...string) *c14Info {
+	return &c14Info{prefix: prefix, names: names, count: map[string]int{}, first: map[string]string{}}
+}
+
+// wants reports whether the first example of name is still missing (lets callers skip building expensive messages).
+func (i *c14Info) wants(name string) bool { return i.count[name] == 0 }
+
+func (i *c14Info) add(name, format string, args ...any) {
+	if i.count[name] == 0 {
+		msg := fmt.Sprintf(format, args...)
+		if len(msg) > 2500 {
+			msg = msg[:2500] + "...(truncated)"
+		}
+		i.first[name] = msg
+		known := false
+		for _, n := range i.names {
+			known = known || n == name
+		}
+		if !known {
+			i.names = append(i.names, name)
+		}
+	}
+	i.count[name]++
+}
+
+func (i *c14Info) report(t *testing.T) {
+	for _, n := range i.names {
+		if i.count[n] == 0 {
+			t.Logf("INFO %s %s: 0 cases", i.prefix, n)
+			continue
+		}
+		t.Logf("INFO %s %s: %d cases, first: %s", i.prefix, n, i.count[n], i.first[n])
 	}
 }
 
@@ -771,6 +816,11 @@ func c14ParseOutList(c *boc.Cell) (modes []byte, msgs []*boc.Cell, err error) {
 	}
 }
 
+// errC14EmptyDictRoot: a highload body announces a dictionary (bit 1 + reference) whose root is an empty cell. An empty
+// HashmapE is the single bit 0 without a reference; a present root must start with a label.
+var errC14EmptyDictRoot = errors.New("highload dictionary: the dictionary bit is 1 and the root reference is an empty cell (0 bits, 0 refs); " +
+	"an empty HashmapE is the single bit 0 without a reference")
+
 func c14ParseBody(h *c14Hasher, ver Version, body *boc.Cell) (*c14Body, error) {
 	bits := c14Bits(body)
 	refs := body.Refs()
@@ -809,6 +859,9 @@ func c14ParseBody(h *c14Hasher, ver Version, body *boc.Cell) (*c14Body, error) {
 		if bits[608] == '1' {
 			if len(refs) != 1 {
 				return nil, fmt.Errorf("highload body with a dictionary bit and %d refs", len(refs))
+			}
+			if refs[0].BitSize() == 0 && len(refs[0].Refs()) == 0 {
+				return nil, errC14EmptyDictRoot
 			}
 			var leaves []c14Leaf
 			if err := c14ParseDict(refs[0], 16, "", &leaves, 0); err != nil {
